@@ -10,6 +10,9 @@ import traceback
 REGISTRY = {
     "C01": ("vf.props.value", "C01"),
     "C02": ("vf.props.value", "C02"),
+    "C13": ("vf.props.clone", None),
+    "C14": ("vf.props.treeprops", "C14"),
+    "C15": ("vf.props.treeprops", "C15"),
     "C06": ("vf.props.rules_struct", "C06"),
     "C07": ("vf.props.rules_struct", "C07"),
 }
